@@ -87,6 +87,24 @@ def packet_damage(rng, stream):
     return 'packet-%s' % mode, b''.join(struct.pack('<III', len(pl), pt, tb) + pl for pt, tb, pl in frames) + stream[off:]
 
 
+def frame_damage(stream, which, value_kind):
+    """the SIZE field of one packet header set to a value that a signed read, a wrapped addition or an offset-walking loop mishandles:
+    -12 (no progress), -13, -1, the most negative number, and 2^32 minus the distance back to an EARLIER packet boundary (a cycle)"""
+    offs = []; off = 0
+    while off + 12 <= len(stream):
+        size = struct.unpack_from('<I', stream, off)[0]
+        if off + 12 + size > len(stream): break
+        offs.append(off); off += 12 + size
+    if len(offs) < 4: return None
+    k = {'first': 0, 'mid': len(offs) // 2, 'last': len(offs) - 1}[which]
+    o = offs[k]
+    back = o - offs[max(0, k - 3)]
+    val = {'minus12': 2 ** 32 - 12, 'minus13': 2 ** 32 - 13, 'minus1': 2 ** 32 - 1, 'minint': 2 ** 31, 'cycle': (2 ** 32 - 12 - back) % 2 ** 32,
+           'cycle1': (2 ** 32 - 12 - (o - offs[max(0, k - 1)])) % 2 ** 32}[value_kind]
+    b = bytearray(stream); struct.pack_into('<I', b, o, val)
+    return bytes(b)
+
+
 def fast_source(path):
     """(engine block bytes, decoded packet stream) of an undamaged file - only a SOURCE of inputs to damage, obtained with the library's reader
     (the extracted model reads 30 kB/s; C01 is where reader and model are compared)"""
@@ -178,6 +196,30 @@ def run(ctx):
                     ctx.violation(dict(kind='damaged-input', source=os.path.basename(src), where=where, corruption=kind, problem=bad, file=keep, wall_s=r['wall'], limit_s=limit,
                                        how='python tools/c15_worker.py <file>  (ReplayParser(file, strict=False).get_info() in a fresh interpreter)'))
                 os.unlink(p)
+        # framing-targeted damage (consistent stream, ONE size field tampered) on the synthetic battles and the smallest recording
+        fsrcs = [syn, syn2] + sorted((x for x in srcs if x not in (syn, syn2)), key=os.path.getsize)[: (1 if q else 4)]
+        for src in fsrcs:
+            ext = src.rsplit('.', 1)[-1]
+            try: raw = fast_source(src)
+            except Exception: continue
+            base = run_worker(src, 120); limit = max(20.0, base['wall'] * 10 + 10)
+            combos = [('mid', 'minus12'), ('mid', 'cycle'), ('last', 'minus12'), ('first', 'minus13'), ('mid', 'minint'), ('mid', 'cycle1'), ('last', 'minus1')]
+            if not q: combos += [(w, v) for w in ('first', 'mid', 'last') for v in ('minus12', 'minus13', 'minus1', 'minint', 'cycle', 'cycle1')]
+            for which, vk in combos:
+                ds = frame_damage(raw[1], which, vk)
+                if ds is None: continue
+                p = os.path.join(tmp, 'frame.' + ext); fast_write(p, ext, raw[0], ds)
+                r = run_worker(p, limit)
+                ctx.case(('frame', os.path.basename(src), which, vk)); ctx.count('where:frame-size-field'); ctx.count('kind:size=' + vk)
+                bad = None
+                if r['outcome'].startswith(('HANG', 'CRASH')): bad = r['outcome']
+                elif r['outcome'] in ('exception MemoryError', 'exception RecursionError'): bad = r['outcome'] + ' (not an ordinary outcome for a damaged file)'
+                elif not r['outcome'].startswith('result'): bad = 'container intact but lenient mode raised: ' + r['outcome']
+                if bad:
+                    keep = os.path.join(common.VERIF, 'evidence', 'replays', 'C15-damaged-%d.%s' % (len(ctx.violations) + 1, ext)); shutil.copy(p, keep)
+                    ctx.violation(dict(kind='damaged-input', source=os.path.basename(src), where='size field of the %s packet header' % which, corruption='size=' + vk, problem=bad, file=keep,
+                                       wall_s=r['wall'], limit_s=limit, how='python tools/c15_worker.py <file>  (ReplayParser(file, strict=False).get_info() in a fresh interpreter)'))
+                    break
         ctx.extra['worst_wall_s'] = worst['wall']; ctx.extra['worst_maxrss_kb'] = worst['rss']
         ctx.sample(dict(sources=[os.path.basename(s) for s in srcs], per_source=n_per))
     finally:
